@@ -1,6 +1,12 @@
 //! C01 bounded: station consistency on every polyline with 2..=4 vertices on the integer grid {0,1,2}^2 (2D) and a
 //! fixed family of 3D polylines, open / naturally closed / force-closed, for l at every stored vertex length, every
 //! edge midpoint and quarter point, 0, L, and just outside [0, L].
+//! LONG curves (31, 32, 33, 64, 100, 128 edges; 2D and 3D): uniform edge lengths (unit staircase, straight run, 3-4-5
+//! zig-zag, closed / force-closed square loops), the same scaled by 0.1 and 2^-20 (inexact cumulative lengths), and
+//! non-uniform ones (edge lengths 1,2,1,2,.. / one long last edge / one long first edge), probed exactly at EVERY stored
+//! vertex length: the station at an interior vertex (2D) must carry the normalised sum of the adjacent edge directions
+//! and equal the by-vertex / iterated station.  TINY edges: curves of total length ~1e-3 with ~1300 edges shorter than
+//! 1e-6 (tolerance 1e-9): directions parallel to the edge, points reproduced within 1e-9 * extent.
 use super::{close, Report};
 use crate::geom2::{Curve2, Point2};
 use crate::geom3::{Curve3, Point3};
@@ -30,6 +36,9 @@ fn check_curve2_tol(r: &mut Report, pts: &[Point2], force_closed: bool, tol: f64
     let v = c.points().to_vec();
     let n = v.len();
     let ls = c.lengths().clone();
+    // point comparisons: relative to the extent of the curve when that is below one unit
+    let ext = v.iter().fold(0.0f64, |m, q| m.max(q.x.abs()).max(q.y.abs()));
+    let cp = |a: f64, b: f64| if ext < 1.0 { (a - b).abs() <= 1e-9 * ext } else { close(a, b) };
     // cumulative lengths: start at 0, increase by exactly the edge lengths, end at the sum of edge lengths
     r.check(ls.len() == n && ls[0] == 0.0, "lengths start at 0 and match the vertex count", desc);
     let mut sum = 0.0;
@@ -65,12 +74,16 @@ fn check_curve2_tol(r: &mut Report, pts: &[Point2], force_closed: bool, tol: f64
                 }
                 if s.index() + 1 < n {
                     let p = lerp2(&v[s.index()], &v[s.index() + 1], s.fraction());
-                    r.check(close(p.x, s.point().x) && close(p.y, s.point().y), "index+fraction reproduce the point", d2);
+                    r.check(cp(p.x, s.point().x) && cp(p.y, s.point().y), "index+fraction reproduce the point", d2);
+                    // lies on the curve: on the edge that contains l, at the arc length l - l[index] from its start
+                    let e = unit2(&v[s.index()], &v[s.index() + 1]);
+                    let q = Point2::new(v[s.index()].x + e.0 * (l - ls[s.index()]), v[s.index()].y + e.1 * (l - ls[s.index()]));
+                    r.check(cp(q.x, s.point().x) && cp(q.y, s.point().y), "the station lies on the curve at arc length l (start of its edge + unit edge direction * (l - l[index]))", d2);
                 }
                 // the same place by fraction
                 if total > 0.0 {
                     if let Some(s2) = c.at_fraction(l / total) {
-                        r.check(close(s2.point().x, s.point().x) && close(s2.point().y, s.point().y), "at_fraction(l/L) gives the same point", d2);
+                        r.check(cp(s2.point().x, s.point().x) && cp(s2.point().y, s.point().y), "at_fraction(l/L) gives the same point", d2);
                     } else if l / total * total <= total { r.check(false, "at_fraction(l/L) yields a station", d2); }
                 }
                 let dn = (s.direction().x.powi(2) + s.direction().y.powi(2)).sqrt();
@@ -98,7 +111,20 @@ fn check_curve2_tol(r: &mut Report, pts: &[Point2], force_closed: bool, tol: f64
             }
             let (ei, ef) = if k == n - 1 { (k - 1, 1.0) } else { (k, 0.0) };
             r.check(s.index() == ei && s.fraction() == ef, "vertex station is (k, 0.0), last vertex (n-2, 1.0)", d3);
-        }
+            r.check(s.point() == v[k], "station at a stored vertex length is that vertex", d3);
+            // the direction the statement prescribes, computed from the vertices alone
+            if !doubles_back(&v, c.is_closed(), ls[k], &ls) {
+                let seam = c.is_closed() && (k == 0 || k == n - 1);
+                let want = if seam || (k > 0 && k < n - 1) {
+                    let (e0, e1) = if seam { (n - 2, 0) } else { (k - 1, k) };
+                    let (a, b) = (unit2(&v[e0], &v[e0 + 1]), unit2(&v[e1], &v[e1 + 1]));
+                    let m = ((a.0 + b.0).powi(2) + (a.1 + b.1).powi(2)).sqrt();
+                    ((a.0 + b.0) / m, (a.1 + b.1) / m)
+                } else if k == 0 { unit2(&v[0], &v[1]) } else { unit2(&v[n - 2], &v[n - 1]) };
+                r.check(close(s.direction().x, want.0) && close(s.direction().y, want.1), "at_length(stored vertex length): direction is the normalised sum of the two adjacent edge directions at an interior vertex / closed seam, the edge direction at an open end", d3);
+                r.check(close(st.direction().x, want.0) && close(st.direction().y, want.1), "iterated vertex station: direction is the normalised sum of the two adjacent edge directions at an interior vertex / closed seam, the edge direction at an open end", d3);
+            }
+        } else { r.check(false, "stored vertex length yields a station", d3); }
     }
     // outside [0, L]: no station (no clamping / extrapolation)
     for l in [-1e-9, -f64::MIN_POSITIVE, total + 1e-9, total * (1.0 + 4.0 * f64::EPSILON) + f64::MIN_POSITIVE, -1.0, total + 1.0] {
@@ -114,6 +140,8 @@ fn check_curve3_tol(r: &mut Report, pts: &[Point3], tol: f64) {
     let v = c.points().to_vec();
     let n = v.len();
     let ls = c.lengths().to_vec();
+    let ext = v.iter().fold(0.0f64, |m, q| m.max(q.x.abs()).max(q.y.abs()).max(q.z.abs()));
+    let cp = |a: f64, b: f64| if ext < 1.0 { (a - b).abs() <= 1e-9 * ext } else { close(a, b) };
     r.check(ls.len() == n && ls[0] == 0.0, "lengths start at 0 and match the vertex count", desc);
     let mut sum = 0.0;
     for i in 0..n - 1 {
@@ -152,7 +180,10 @@ fn check_curve3_tol(r: &mut Report, pts: &[Point3], tol: f64) {
             }
             if s.index() + 1 < n {
                 let p = lerp3(&v[s.index()], &v[s.index() + 1], s.fraction());
-                r.check(close(p.x, s.point().x) && close(p.y, s.point().y) && close(p.z, s.point().z), "index+fraction reproduce the point", d2);
+                r.check(cp(p.x, s.point().x) && cp(p.y, s.point().y) && cp(p.z, s.point().z), "index+fraction reproduce the point", d2);
+                let dv = v[s.index() + 1] - v[s.index()];
+                let q = v[s.index()] + dv / dv.norm() * (l - ls[s.index()]);
+                r.check(cp(q.x, s.point().x) && cp(q.y, s.point().y) && cp(q.z, s.point().z), "the station lies on the curve at arc length l (start of its edge + unit edge direction * (l - l[index]))", d2);
             }
         } else { r.check(false, "a length inside [0, L] yields a station", d2); }
     }
@@ -170,7 +201,7 @@ fn check_curve3_tol(r: &mut Report, pts: &[Point3], tol: f64) {
 }
 
 pub fn run() -> Report {
-    let mut r = Report::new("2D: all vertex sequences of length 2..=4 over the 3x3 integer grid (x force_closed in {false,true}), plus sequences with near-duplicate points (gap 1e-7 < tol); 3D: 2..=3 vertices over {0,1}^3 plus near-duplicates; probe lengths: 0, L, every vertex length, quarter/half points of every edge, and 6 values outside [0, L]");
+    let mut r = Report::new("2D: all vertex sequences of length 2..=4 over the 3x3 integer grid (x force_closed in {false,true}), plus sequences with near-duplicate points (gap 1e-7 < tol); 3D: 2..=3 vertices over {0,1}^3 plus near-duplicates; probe lengths: 0, L, every vertex length, quarter/half points of every edge, and 6 values outside [0, L]; LONG curves with 31, 32, 33, 64, 100, 128 edges (2D: 8 families uniform / non-uniform, open and force-closed; 3D: 3 families) x scales 1, 0.1, 2^-20, closed square loops with 32..128 edges (seam at a corner / inside a side), probed at EVERY stored vertex length; curves of ~1300 edges shorter than 1e-6 (total length ~1e-3, tol 1e-9) and unit-size curves with a dense stretch of such edges");
     let grid: Vec<Point2> = (0..9).map(|k| Point2::new((k % 3) as f64, (k / 3) as f64)).collect();
     for len in 2..=4usize {
         let mut idx = vec![0usize; len];
@@ -199,5 +230,82 @@ pub fn run() -> Report {
     let dup3 = vec![Point3::new(0.0, 0.0, 0.0), Point3::new(1.0, 0.0, 0.0), Point3::new(1.0, 0.0, 0.0), Point3::new(1.0, 2.0, 0.0), Point3::new(1.0, 2.0, 0.0), Point3::new(1.0, 2.0, 2.0)];
     check_curve3_tol(&mut r, &dup3, 0.0);
     check_curve3_tol(&mut r, &[g3[0], g3[1], g3[3], g3[7]], 0.25);
+    long_curves(&mut r);
     r
+}
+
+/// polyline from a start point and a cyclic list of edge vectors, `n` edges, every coordinate multiplied by `f`
+fn chain2(n: usize, steps: &[(f64, f64)], f: f64) -> Vec<Point2> {
+    let (mut x, mut y) = (0.0, 0.0);
+    let mut v = vec![Point2::new(0.0, 0.0)];
+    for k in 0..n { x += steps[k % steps.len()].0; y += steps[k % steps.len()].1; v.push(Point2::new(x * f, y * f)); }
+    v
+}
+fn chain3(n: usize, steps: &[(f64, f64, f64)], f: f64) -> Vec<Point3> {
+    let (mut x, mut y, mut z) = (0.0, 0.0, 0.0);
+    let mut v = vec![Point3::new(0.0, 0.0, 0.0)];
+    for k in 0..n { let s = steps[k % steps.len()]; x += s.0; y += s.1; z += s.2; v.push(Point3::new(x * f, y * f, z * f)); }
+    v
+}
+/// square loop with m unit edges per side (4m edges), first vertex repeated at the end when `repeat`
+fn loop2(m: usize, repeat: bool, f: f64, start: usize) -> Vec<Point2> {
+    let mut ring = vec![];
+    for k in 0..m { ring.push((k as f64, 0.0)); }
+    for k in 0..m { ring.push((m as f64, k as f64)); }
+    for k in 0..m { ring.push(((m - k) as f64, m as f64)); }
+    for k in 0..m { ring.push((0.0, (m - k) as f64)); }
+    let mut v: Vec<Point2> = (0..4 * m).map(|i| { let q = ring[(i + start) % (4 * m)]; Point2::new(q.0 * f, q.1 * f) }).collect();
+    if repeat { v.push(v[0]); }
+    v
+}
+
+/// LONG curves, uniform and not, and curves with edges shorter than 1e-6: see the header
+fn long_curves(r: &mut Report) {
+    let scales = [1.0, 0.1, 2f64.powi(-20)];
+    for &n in [31usize, 32, 33, 64, 100, 128].iter() {
+        for &f in scales.iter() {
+            let tol = 1e-6 * f;
+            // uniform: unit staircase, straight run, 3-4-5 zig-zag (edge length 5), diagonal staircase with a flat step
+            check_curve2_tol(r, &chain2(n, &[(1.0, 0.0), (0.0, 1.0)], f), false, tol);
+            check_curve2_tol(r, &chain2(n, &[(1.0, 0.0)], f), false, tol);
+            check_curve2_tol(r, &chain2(n, &[(3.0, 4.0), (3.0, -4.0)], f), false, tol);
+            check_curve2_tol(r, &chain2(n, &[(3.0, 4.0), (5.0, 0.0), (4.0, -3.0), (0.0, 5.0)], f), false, tol);
+            // uniform, force-closed by a closing edge of a different length
+            check_curve2_tol(r, &chain2(n, &[(1.0, 0.0), (0.0, 1.0)], f), true, tol);
+            // non-uniform: lengths 1,2,1,2,..; one long last edge; one long first edge
+            check_curve2_tol(r, &chain2(n, &[(1.0, 0.0), (0.0, 2.0)], f), false, tol);
+            let mut tail = chain2(n - 1, &[(1.0, 0.0), (0.0, 1.0)], f); let e = *tail.last().unwrap(); tail.push(Point2::new(e.x + 40.0 * f, e.y));
+            check_curve2_tol(r, &tail, false, tol);
+            let mut head = vec![Point2::new(-40.0 * f, 0.0)]; head.extend(chain2(n - 1, &[(0.0, 1.0), (1.0, 0.0)], f));
+            check_curve2_tol(r, &head, false, tol);
+            // 3D
+            check_curve3_tol(r, &chain3(n, &[(1.0, 0.0, 0.0), (0.0, 1.0, 0.0), (0.0, 0.0, 1.0)], f), tol);
+            check_curve3_tol(r, &chain3(n, &[(1.0, 2.0, 2.0), (2.0, -1.0, 2.0)], f), tol);
+            check_curve3_tol(r, &chain3(n, &[(1.0, 0.0, 0.0), (0.0, 2.0, 0.0), (0.0, 0.0, 1.0)], f), tol);
+        }
+    }
+    // closed square loops with 8, 16, 25, 32 unit edges per side, naturally closed and force-closed, the seam at a corner
+    // and inside a side
+    for &m in [8usize, 16, 25, 32].iter() { for &f in scales.iter() { for start in [0usize, 3] {
+        check_curve2_tol(r, &loop2(m, true, f, start), false, 1e-6 * f);
+        check_curve2_tol(r, &loop2(m, false, f, start), true, 1e-6 * f);
+    } } }
+    // edges shorter than 1e-6 with a tolerance below that: 1300 edges of length 5 * 2^-23 (2D) / 13 * 2^-24 (3D), bent
+    let h2 = 2f64.powi(-23);
+    let mut steps2 = vec![];
+    for k in 0..1300 { steps2.push(match (k / 100) % 3 { 0 => (3.0, 4.0), 1 => (4.0, -3.0), _ => (5.0, 0.0) }); }
+    check_curve2_tol(r, &chain2(1300, &steps2, h2), false, 1e-9);
+    let h3 = 2f64.powi(-24);
+    let mut steps3 = vec![];
+    for k in 0..1300 { steps3.push(match (k / 100) % 3 { 0 => (3.0, 4.0, 12.0), 1 => (12.0, 3.0, -4.0), _ => (4.0, -12.0, 3.0) }); }
+    check_curve3_tol(r, &chain3(1300, &steps3, h3), 1e-9);
+    // a unit-size curve with a locally dense stretch (64 edges of length 5 * 2^-23) in its middle
+    let mut d2v = vec![Point2::new(-1.0, 0.0)];
+    d2v.extend(chain2(64, &[(3.0, 4.0), (4.0, 3.0)], h2));
+    let e = *d2v.last().unwrap(); d2v.push(Point2::new(e.x, e.y + 1.0));
+    check_curve2_tol(r, &d2v, false, 1e-9);
+    let mut d3v = vec![Point3::new(-1.0, 0.0, 0.0)];
+    d3v.extend(chain3(64, &[(3.0, 4.0, 12.0), (4.0, 12.0, 3.0)], h3));
+    let e = *d3v.last().unwrap(); d3v.push(Point3::new(e.x, e.y, e.z + 1.0));
+    check_curve3_tol(r, &d3v, 1e-9);
 }
